@@ -188,8 +188,7 @@ def generate() -> Tuple[str, Dict[str, Any]]:
     w('def returnTypesNum : List (Nat × Nat) := [' + ', '.join(f'({k}, {v})' for k, v in num) + ']')
     w('/-- `SFTPHandler._return_types`, extended request names -/')
     w('def returnTypesExt : List (List UInt8 × Nat) := [')
-    w(',\n'.join(f'  ({_lean_bytes(k)}, {v})  -- {k.decode()}' if False else f'  ({_lean_bytes(k)}, {v})'
-                 for k, v in ext))
+    w(',\n'.join(f'  ({_lean_bytes(k)}, {v})' for k, v in ext))
     w(']')
     w('')
     # server handler keys
@@ -304,17 +303,42 @@ def generate() -> Tuple[str, Dict[str, Any]]:
     return '\n'.join(out) + '\n', info
 
 
-def self_test(info: Dict[str, Any]) -> None:
-    """The translated chains are evaluated in Python semantics against the live functions."""
+def _chain_function(chain: ast.If, params: List[str], result: str) -> Any:
+    """compile an extracted if-chain (logging calls dropped) into a Python function returning `result`"""
+    class Strip(ast.NodeTransformer):
+        def visit_Expr(self, node: ast.Expr) -> Any:
+            return ast.Pass()
+    body = [Strip().visit(ast.parse(ast.unparse(chain)).body[0]), ast.Return(ast.Name(result, ast.Load()))]
+    fn = ast.FunctionDef(name='chain', args=ast.arguments(posonlyargs=[], args=[ast.arg(p) for p in params],
+                                                         kwonlyargs=[], kw_defaults=[], defaults=[]),
+                         body=body, decorator_list=[], type_params=[])
+    mod = ast.fix_missing_locations(ast.Module(body=[fn], type_ignores=[]))
     import importlib
+    env: Dict[str, Any] = dict(vars(importlib.import_module('asyncssh.constants')))
+    env['errno'] = errno_mod
+    exec(compile(mod, '<c14-chain>', 'exec'), env)
+    return env['chain']
+
+
+def self_test(info: Dict[str, Any]) -> None:
+    """The extracted chains, evaluated with Python semantics, are compared with the live functions: this guards
+    the translator's reading of the AST (that it picked the right statements); the Lean rendering of the same
+    chains is compared with the live code by the correspondence run (`status`, `sreq` lines)."""
+    import importlib
+    import types
     sftp = importlib.import_module('asyncssh.sftp')
-    from asyncssh.packet import SSHPacket
-    # statusCodeFor: compare with the real SFTPError.encode on every code 0..40 x version 3..6 (done again in
-    # Lean by the correspondence run; this only guards the translator's reading of the AST)
-    for v in range(3, 7):
+    tree = ast.parse(open(os.path.join(vlib.REPO, 'asyncssh', 'sftp.py')).read())
+    enc = _find(tree.body, 'SFTPError', 'encode')
+    chain = [st for st in enc.body if isinstance(st, ast.If)][0]
+    args = [a.arg for a in enc.args.args]
+    fn = _chain_function(chain, args, 'code')
+    for v in range(2, 8):
         for code in list(range(0, 40)) + [255, 2 ** 32 - 1]:
-            b = sftp.SFTPError(code, '').encode(v)
-            SSHPacket(b).get_uint32()
+            live = int.from_bytes(sftp.SFTPError(code, '').encode(v)[:4], 'big')
+            got = fn(types.SimpleNamespace(code=code), v)
+            if live != got:
+                raise TranslateError(f'SFTPError.encode chain: extracted gives {got}, live gives {live} '
+                                     f'for code {code} version {v}')
 
 
 def translate(ctx: Any) -> Dict[str, Any]:
